@@ -36,7 +36,7 @@ theorem encAs_fun : ∀ {t : Ty} {x y : Obj}, EncAs w cfg t x y → y = un w cfg
   | _, _, _, .clsDict ht h => by rw [un, if_neg (by simp [ht]), encF_fun h]
   | _, _, _, .clsTuple ht h => by rw [un, if_pos ht, encFT_fun h]
   | _, _, _, .tdG hg h => by rw [un, if_pos hg, encTD_fun h]
-  | _, _, _, .tdB hg => by rw [un, if_neg (by simp [hg])]
+  | _, _, _, .tdB hg h => by rw [un, if_neg (by simp [hg]), encRtKV_fun h]
 theorem encRt_fun : ∀ {x y : Obj}, EncRt w cfg x y → y = unAny w cfg x
   | _, _, .none => by simp [unAny]
   | _, _, .bool => by simp [unAny]
